@@ -145,7 +145,7 @@ impl<'a> Lexer<'a> {
         ensures final(self).srclen() == old(self).srclen(),
             final(self).pos() <= final(self).srclen(),
             match r {
-                Some(t) => t.len >= 1 && final(self).hist() == old(self).hist().push(t),
+                Some(t) => t.len >= 1 && t.kind != Syntax::EOF && final(self).hist() == old(self).hist().push(t),
                 None => final(self).hist() == old(self).hist() && old(self).pos() == old(self).srclen(),
             }
     { unimplemented!() }
